@@ -3,8 +3,8 @@
    model/MemCfg.v (constants regenerated from the source, gen/GenMemConst.v).
    run w64 = the faithful model (size_t arithmetic mod 2^64); all op sequences, all oracles. *)
 From Coq Require Import List ZArith Permutation.
-From LJT Require Import model.MemMgr model.MemCfg gen.GenMemConst
-  proofs.MemMgrProofs proofs.MemMgrWrap proofs.MemMgrLimits proofs.MemMgrExamples.
+From LJT Require Import model.MemMgr model.TjInit model.MemCfg gen.GenMemConst
+  proofs.MemMgrProofs proofs.MemMgrWrap proofs.MemMgrLimits proofs.TjInitProofs proofs.MemMgrExamples.
 Import ListNotations.
 Local Open Scope Z_scope.
 
@@ -51,7 +51,7 @@ Print Assumptions C14_destroy_frees_all.
 
 (* free_pool(JPOOL_IMAGE) frees exactly the image-pool blocks *)
 Theorem C14_free_pool_image_exact : forall c m h m' h' e,
-  inv c m h -> free_pool c m h 1 = (m', h', e) ->
+  inv [] c m h -> free_pool c m h 1 = (m', h', e) ->
   e = None /\
   Permutation (live h') ((m_blk m, c_mgr c) :: map (recblk c) (m_small0 m ++ m_large0 m)) /\
   m_small1 m' = [] /\ m_large1 m' = [] /\ m_vs m' = [] /\ m_vb m' = [] /\
@@ -117,7 +117,40 @@ Theorem C14_pixel_limit_32bit_refuted : exists w h lim,
 Proof. exact pixels_limit_32_refuted. Qed.
 Print Assumptions C14_pixel_limit_32bit_refuted.
 
+(* (6) tj3Init (model/TjInit.v).  If the setjmp handlers of _tjInitCompress/_tjInitDecompress
+   destroy the libjpeg object(s) created so far before free(this), then for EVERY failure
+   oracle and every init type tj3Init (followed by tj3Destroy when it succeeded) leaves
+   nothing allocated ... *)
+Theorem C14_tj3init_no_leak_if_handler_destroys : forall c ty oracle sz_this csz dsz,
+  cfg_wf c -> 0 <= sz_this <= c_max c -> Forall (fun z => 0 <= z) csz -> Forall (fun z => 0 <= z) dsz ->
+  let '(ok, h) := tj3_init_destroy w64 c true ty (empty_heap oracle) sz_this csz dsz in
+  live h = [] /\ badfree h = 0.
+Proof. exact tj3_init_fixed_no_leak64. Qed.
+Print Assumptions C14_tj3init_no_leak_if_handler_destroys.
+
+(* ... and if the handlers only free(this) (the code as generated facts currently say:
+   tjinit_handler_destroys = false), the clause "nothing remains allocated" is REFUTED:
+   a failure oracle exists after which library blocks stay allocated (finding F4). *)
+Theorem C14_tj3init_handler_frees_only_refuted : exists c ty oracle sz csz dsz,
+  cfg_wf c /\ 0 <= sz <= c_max c /\ Forall (fun z => 0 <= z) csz /\ Forall (fun z => 0 <= z) dsz /\
+  let '(ok, h) := tj3_init_destroy w64 c false ty (empty_heap oracle) sz csz dsz in live h <> [].
+Proof. exact tj3_init_handler_frees_only_refuted. Qed.
+Print Assumptions C14_tj3init_handler_frees_only_refuted.
+
 (* ------------------------------------------------------------ non-vacuity *)
+Example C14_ex_tj3init :
+  (let '(ok, h) := tj3_init_destroy w64 ex_cfg false ITransform (empty_heap [false; false; false; true]) 1000 [64; 88] [64; 200; 48; 56] in
+   ok = false /\ length (live h) = 2%nat) /\
+  (let '(ok, h) := tj3_init_destroy w64 ex_cfg false ICompress (empty_heap (false :: false :: repeat true 20)) 1000 [64; 88] [64; 200; 48; 56] in
+   ok = false /\ length (live h) = 1%nat) /\
+  (let '(ok, h) := tj3_init_destroy w64 ex_cfg false IDecompress (empty_heap (false :: false :: repeat true 20)) 1000 [64; 88] [64; 200; 48; 56] in
+   ok = false /\ length (live h) = 1%nat) /\
+  (let '(ok, h) := tj3_init_destroy w64 ex_cfg true ITransform (empty_heap [false; false; false; true]) 1000 [64; 88] [64; 200; 48; 56] in
+   ok = false /\ live h = []) /\
+  (let '(ok, h) := tj3_init_destroy w64 ex_cfg true ITransform (empty_heap []) 1000 [64; 88] [64; 200; 48; 56] in
+   ok = true /\ live h = []).
+Proof. exact tj3_init_leak_witness. Qed.
+
 Example C14_ex_ops_in_range : Forall op_in_range ex_ops.
 Proof. exact ex_in_range. Qed.
 
